@@ -139,7 +139,7 @@ def correspondence(ctx):
         if r is None:
             continue
         got = H.parse_pairs(r)
-        ctx.oblige(got == exp, "correspondence", "model = real _find_boundary / _solve_power_from_stats / solve_power_from_aggregates rows (exact, stand-ins)",
+        ctx.oblige(H.same_numbers(got, exp), "correspondence", "model = real _find_boundary / _solve_power_from_stats / solve_power_from_aggregates rows (exact, stand-ins)",
                    f"model={got} real={exp}", case)
         ctx.sample(case, limit=4)
 
